@@ -67,6 +67,20 @@ func Explore(run RunFunc, opt Options) *Stats {
 		opt.MaxFindings = 8
 	}
 	e := &explorer{run: run, opt: opt, st: &Stats{Outcomes: map[string]int64{}, Complete: true}}
+	// determinism is checked, not assumed: the default schedule is executed twice and must produce the same
+	// choice points and the same observation signature
+	r1, _, o1 := run(nil)
+	r2, _, o2 := run(nil)
+	if o1 != o2 || len(r1.Trace) != len(r2.Trace) || r1.Status != r2.Status {
+		e.st.HarnessError = fmt.Sprintf("nondeterministic harness: two runs of the default schedule differ (%s/%d points/%q vs %s/%d points/%q)", r1.Status, len(r1.Trace), o1, r2.Status, len(r2.Trace), o2)
+		return e.st
+	}
+	for i := range r1.Trace {
+		if r1.Trace[i] != r2.Trace[i] {
+			e.st.HarnessError = fmt.Sprintf("nondeterministic harness: choice point %d differs between two runs of the default schedule (%+v vs %+v)", i, r1.Trace[i], r2.Trace[i])
+			return e.st
+		}
+	}
 	e.explore(nil, 0, true)
 	return e.st
 }
